@@ -187,6 +187,14 @@ func HarnessC17(k, final, form int) {
 	if final == 1 {
 		wantLen = n - 1
 	}
+	// the accessors are pure: their answers do not depend on which of them was asked first
+	if vnBool("errBeforeLen") {
+		e1 := r.Err()
+		if wantLen > 0 {
+			hGuardPlain(func() { _ = r.Out(0) })
+		}
+		vnAssert(r.Err() == e1, "C17.err-is-idempotent")
+	}
 	vnAssert(r.Len() == wantLen, "C17.len-excludes-only-a-final-error")
 	if r.Len() != wantLen {
 		return
